@@ -126,11 +126,12 @@ Print Assumptions wsc_char_one_label_per_id.
     ids than labels ([tensorize] pads the two matrices separately).  Table {"ab"}, text "ab": one id, two labels. *)
 Definition ex_sp : spc :=
   mk_spc [[60;112;97;100;62]]%N [60;112;97;100;62]%N [] [].
-Theorem wsc_one_label_per_id_refuted_bpe : exists k x ids pad ls,
-  build (DBpe ex_sp [[97;98]]%N None) = Some k /\ task_k (KWsc false k) x = ROk (TISeq ids pad ls) /\
-  length ids = 1 /\ length ls = 2.
+Theorem wsc_one_label_per_id_refuted_bpe : exists k,
+  build (DBpe ex_sp [[97;98]]%N None) = Some k /\
+  task_k (KWsc false k) (mk_item [97;98]%N [97;98]%N) = ROk (TISeq [256]%N 257%N [0; 0]%Z).
 Proof.
-  eexists _, (mk_item [97;98]%N [97;98]%N), _, _, _. vm_compute. repeat split.
+  destruct (build (DBpe ex_sp [[97;98]]%N None)) as [k|] eqn:E; [|vm_compute in E; discriminate].
+  exists k. split; [reflexivity|]. vm_compute in E. injection E as <-. vm_compute. reflexivity.
 Qed.
 Print Assumptions wsc_one_label_per_id_refuted_bpe.
 
@@ -172,17 +173,32 @@ Print Assumptions delivered_wsc_char_labels_aligned.
 
 (** the premises are met.  Two positions; conditional generation with a CHARACTER input tokenizer (grapheme mode, the real
     alphabet, prefix <bos>) and a BPE target tokenizer (table {"ab", "abc"}, max_vocab_size 258 = 256 + 1 token + 1: only
-    the first merge survives); "ab é" -> input ids <bos> a b ' ' <unk-for-é>; target "abc" -> [256 (= ab), 99] *)
+    the first merge survives); "ab é" -> input ids <bos> a b ' ' <u> (é is not in the alphabet); target "abc" -> decoder ids [256 (= ab)],
+    label 99 (= c) *)
 Definition ex_sp2 : spc :=
   mk_spc [[60;98;111;115;62]; [60;112;97;100;62]]%N [60;112;97;100;62]%N [[60;98;111;115;62]]%N [].
 Definition ex_kc : option tokz := build (DChar ex_sp2 [60;117;62]%N true C01_UAX29.chars_alphabet).
 Definition ex_kb : option tokz := build (DBpe ex_sp [[97;98]; [97;98;99]]%N (Some 258%N)).
-Example mixed_tokenizers_example : exists kc kb,
-  ex_kc = Some kc /\ ex_kb = Some kb /\
-  loader_items [Some (0, mk_item [97;98;32;233]%N [97;98;99]%N); None]
-    (g_fn (pipe_res_k opq_std qopq_none (PGlobal CNone) (KCond kc true kb true) (QGlobal QNone) 512 7 0)) 10 0 0 0 1
-  = [(0, mk_xitem (mk_item [97;98;32;233]%N [97;98;99]%N) (TICond [95;0;1;94;97]%N 96%N [256]%N 257%N [99]%Z))].
-Proof. eexists _, _. vm_compute. repeat split. Qed.
+Example mixed_tokenizers_example :
+  match ex_kc, ex_kb with
+  | Some kc, Some kb =>
+      loader_items [Some (0, mk_item [97;98;32;233]%N [97;98;99]%N); None]
+        (g_fn (pipe_res_k opq_std qopq_none (PGlobal CNone) (KCond kc true kb true) (QGlobal QNone) 512 7%N 0%N)) 10 0 0 0 1
+      = [(0, mk_xitem (mk_item [97;98;32;233]%N [97;98;99]%N) (TICond [95;0;1;94;97]%N 96%N [256]%N 257%N [99]%Z))]
+  | _, _ => False
+  end.
+Proof. vm_compute. reflexivity. Qed.
+
+(** whitespace correction over the same character tokenizer: "a  b" (target "a b"): ids <bos> a ' ' ' ' b, labels -1 0 0 2 0 *)
+Example wsc_char_loader_example :
+  match ex_kc with
+  | Some kc =>
+      loader_items [Some (0, mk_item [97;32;32;98]%N [97;32;98]%N); None]
+        (g_fn (pipe_res_k opq_std qopq_none (PGlobal CNone) (KWsc true kc) (QGlobal QNone) 512 7%N 0%N)) 10 0 0 0 1
+      = [(0, mk_xitem (mk_item [97;32;32;98]%N [97;32;98]%N) (TISeq [95;0;94;94;1]%N 96%N [-1; 0; 0; 2; 0]%Z))]
+  | None => False
+  end.
+Proof. vm_compute. reflexivity. Qed.
 
 (** * the executable statements of the two new lines hold of the model's own output *)
 Theorem check_run_item_k : forall v,
